@@ -478,6 +478,15 @@ func (i *interpreter) jsonMarshalTree(fr *frame, T types.Type, v value, depth in
 		}
 		return json.RawMessage(b), nil
 	}
+	if nt, ok := T.(*types.Named); ok && nt.Obj().Pkg() != nil && nt.Obj().Pkg().Path() == "encoding/json" && nt.Obj().Name() == "Number" {
+		// a json.Number is written as the number literal it holds
+		if str, ok := v.(string); ok {
+			if str == "" {
+				str = "0"
+			}
+			return json.RawMessage(str), nil
+		}
+	}
 	switch U := T.Underlying().(type) {
 	case *types.Pointer:
 		return i.jsonMarshalTree(fr, U.Elem(), *(v.(*value)), depth+1)
